@@ -18,6 +18,15 @@ pub struct PanicInfo {
 
 thread_local! {
     static GUARD_DEPTH: Cell<u32> = Cell::new(0);
+    /// look-alike decoy states: while set, every guarded engine call on the monitored state is
+    /// preceded by the same call on each decoy (whatever the engine remembers from its previous call
+    /// - memo tables, thread-local hand-overs - then comes from a state that agrees with the
+    /// monitored one in part of its description only)
+    static DECOYS: RefCell<Vec<GameState>> = RefCell::new(Vec::new());
+    static DECOY_ACTION: Cell<Option<Action>> = Cell::new(None);
+    static IN_DECOY: Cell<bool> = Cell::new(false);
+    static DECOY_CALLS: Cell<u64> = Cell::new(0);
+    static DECOY_ROT: Cell<usize> = Cell::new(0);
     static LAST_PANIC: RefCell<Option<(String, String)>> = RefCell::new(None);
 }
 
@@ -48,7 +57,93 @@ pub fn install_panic_hook() {
 }
 
 /// Run an engine call; an unwind becomes an observed event with its site.
+pub fn set_decoys(v: Vec<GameState>) {
+    DECOYS.with(|d| *d.borrow_mut() = v);
+}
+pub fn take_decoys() -> Vec<GameState> {
+    DECOYS.with(|d| std::mem::take(&mut *d.borrow_mut()))
+}
+pub fn decoy_calls() -> u64 {
+    DECOY_CALLS.with(|c| c.replace(0))
+}
+/// guard for calls that take an action: the decoys are asked about the same action first
+pub fn guard_act<T>(api: &'static str, a: &Action, f: impl FnOnce() -> T) -> Result<T, PanicInfo> {
+    DECOY_ACTION.with(|c| c.set(Some(*a)));
+    let r = guard(api, f);
+    DECOY_ACTION.with(|c| c.set(None));
+    r
+}
+fn decoy_pre(api: &'static str) {
+    if IN_DECOY.with(|c| c.get()) || DECOYS.with(|d| d.borrow().is_empty()) {
+        return;
+    }
+    IN_DECOY.with(|c| c.set(true));
+    let decoys = DECOYS.with(|d| std::mem::take(&mut *d.borrow_mut()));
+    let act = DECOY_ACTION.with(|c| c.get());
+    GUARD_DEPTH.with(|d| d.set(d.get() + 1));
+    let mut n = 0u64;
+    // a one-entry memo only remembers the LAST decoy: rotate, so that each of them is last in turn
+    let rot = DECOY_ROT.with(|c| {
+        c.set(c.get().wrapping_add(1));
+        c.get()
+    }) % decoys.len();
+    for d in decoys[rot..].iter().chain(decoys[..rot].iter()) {
+        let _ = catch_unwind(AssertUnwindSafe(|| {
+            match api {
+                "valid_actions_no_rep" => {
+                    let _ = d.valid_actions_no_rep();
+                }
+                "valid_actions" => {
+                    let _ = d.valid_actions();
+                }
+                "is_terminal" => {
+                    let _ = d.is_terminal();
+                }
+                "summaries" => {
+                    let _ = (d.is_terminal(), d.has_move(d.piece_board()));
+                    if d.is_play_phase() {
+                        let _ = (d.can_pass(true), d.can_pass(false));
+                    }
+                }
+                "trapped_animal_for_action" => {
+                    if let Some(a) = act {
+                        let _ = d.trapped_animal_for_action(&a);
+                    }
+                }
+                "take_action" | "preview+apply" => {
+                    if let Some(a) = act {
+                        let _ = d.trapped_animal_for_action(&a);
+                        let _ = d.take_action(&a);
+                        let _ = d.trapped_animal_for_action(&a);
+                    }
+                }
+                "transposition_hash" | "hash queries" | "hash of reached state" => {
+                    let _ = d.transposition_hash();
+                }
+                "GameState::to_string" => {
+                    let _ = d.to_string();
+                }
+                "piece_board_for_step" | "previous_piece_boards" | "board views" | "getters" => {
+                    if d.is_play_phase() {
+                        for i in 0..=d.current_step() {
+                            let _ = d.piece_board_for_step(i).all_pieces;
+                        }
+                    }
+                }
+                _ => {}
+            }
+        }));
+        n += 1;
+    }
+    GUARD_DEPTH.with(|d| d.set(d.get() - 1));
+    LAST_PANIC.with(|p| *p.borrow_mut() = None);
+    DECOY_CALLS.with(|c| c.set(c.get() + n));
+    DECOYS.with(|d| *d.borrow_mut() = decoys);
+    IN_DECOY.with(|c| c.set(false));
+}
+
 pub fn guard<T>(api: &'static str, f: impl FnOnce() -> T) -> Result<T, PanicInfo> {
+    decoy_pre(api);
     GUARD_DEPTH.with(|d| d.set(d.get() + 1));
     let r = catch_unwind(AssertUnwindSafe(f));
     GUARD_DEPTH.with(|d| d.set(d.get() - 1));
